@@ -150,6 +150,26 @@ for n, props, sym in [
     H("fastrace", "local::local_span", n, props, sym=sym, bound="public thread-local entry points on virtual thread 0, one scope, 1..3 calls", models=SPM,
       mem_gb=30 if n == "ls_closure_reenters_with_properties" else 16, tier="thorough" if n == "ls_closure_reenters_with_properties" else "quick", cap_s=1500)
 
+# ---------------------------------------------------------------- codecs (C12)
+CM = ("kani", "fmt", "memchr")
+H("fastrace", "collector::id", "c12_encode_shape", ["C12"], sym="trace id (128 bits), span id (64), sampled, hex position", bound="all 2^193 contexts", models=CM, unwind=None, cap_s=1500, mem_gb=16)
+H("fastrace", "collector::id", "c12_decode_ascii_le4", ["C12"], sym="every ASCII string of length <= 4", bound="input length <= 4", models=CM)
+H("fastrace", "collector::id", "c12_decode_fields_112", ["C12"], sym="00-H-H-HH with 4 arbitrary ASCII bytes", bound="field lengths 1,1,2", models=CM, cap_s=1500, mem_gb=16)
+H("fastrace", "collector::id", "c12_decode_fields_222", ["C12"], sym="00-HH-HH-HH with 6 arbitrary ASCII bytes", bound="field lengths 2,2,2", models=CM, cap_s=2400, mem_gb=30, tier="thorough")
+H("fastrace", "collector::id", "c12_id_display", ["C12"], sym="all trace ids and span ids, digit position", bound="all values", models=CM)
+H("fastrace", "collector::id", "c12_id_fromstr_short", ["C12"], sym="every ASCII string of length <= 3", bound="input length <= 3", models=CM)
+
+# ---------------------------------------------------------------- future adapters (C13)
+FUB = "one adapter, <= 2 polls, span built directly, span stack of capacity 4 on virtual thread 0"
+for n, props, sym, kw in [
+    ("fu_inspan_noop", ["C13", "C16"], "none", {}),
+    ("fu_inspan_scope_pending", ["C13", "C10"], "token item, span id", dict(mem_gb=20, cap_s=1500)),
+    ("fu_inspan_finish_ready_root", ["C13", "C03"], "token item, span id, collect id", dict(mem_gb=24, cap_s=1800, flags=NOCHK + ["--no-overflow-checks"])),
+    ("fu_inspan_drop_unfinished", ["C13"], "token item, span id", {}),
+    ("fu_enter_on_poll_no_parent", ["C13", "C16"], "none", {}),
+]:
+    H("fastrace", "future", n, [p for p in props if p != "C03"], sym=sym, bound=FUB, models=SPM, **kw)
+
 COLLECTOR_OUT = "everything downstream of Receiver::try_recv (handle_commands, per-trace maps, amend/mount, Reporter::report, report interval, flush())"
 
 PROPS = {
